@@ -138,6 +138,8 @@ pub enum Op {
 	/// Send `amount_msat` from node `from` along `hops` (node, channel index into `World` channel list).
 	Send { from: usize, hops: Vec<(usize, usize)>, amount_msat: u64, policy: ClaimPolicy },
 	SetFee { node: usize, rate: u32 },
+	/// Every node's fee estimator changes (no message is triggered by this alone).
+	SetFeeAll { rate: u32 },
 	Shutdown { node: usize, chan: usize },
 	ForceClose { node: usize, chan: usize },
 	/// Limit probe (C01): read the channel's reported send limits on `node` and send an HTLC at /
@@ -242,6 +244,8 @@ pub struct WorldSys {
 	/// confirmation delay: blocks the miner lets pass before confirming what is in the mempool
 	pub miner_delay: u32,
 	pub stalled: bool,
+	/// fee-estimator trajectory: after the first block of a confirmation stall all estimators drop to this
+	pub fee_after_first_stall_block: Option<u32>,
 	pub sweep_failures: Vec<String>,
 	pub tampered: bool,
 	pub last_raa: std::collections::BTreeMap<(usize, usize), lightning::ln::msgs::RevokeAndACK>,
@@ -291,6 +295,7 @@ impl WorldSys {
 			extra_rounds: 0,
 			miner_delay: 0,
 			stalled: false,
+			fee_after_first_stall_block: None,
 			sweep_failures: Vec::new(),
 			tampered: false,
 			last_raa: Default::default(),
@@ -430,6 +435,12 @@ impl WorldSys {
 				self.w.nodes[node].cm.timer_tick_occurred();
 				self.w.obs.push(Obs::Api { node, what: format!("set_fee {}", rate), ok: true, detail: String::new() });
 				self.w.pump();
+			},
+			Op::SetFeeAll { rate } => {
+				for n in 0..self.w.nodes.len() {
+					*self.w.nodes[n].fee.sat_per_kw.lock().unwrap() = rate;
+				}
+				self.w.obs.push(Obs::Api { node: 0, what: format!("set_fee_all {}", rate), ok: true, detail: String::new() });
 			},
 			Op::Shutdown { node, chan } => {
 				let cid = self.chans[chan];
@@ -631,7 +642,14 @@ impl WorldSys {
 			},
 			Action::Stall(k) => {
 				self.stalled = true;
-				for _ in 0..*k {
+				for j in 0..*k {
+					if let Some(r) = self.fee_after_first_stall_block {
+						if j == 1 {
+							for n in 0..self.w.nodes.len() {
+								*self.w.nodes[n].fee.sat_per_kw.lock().unwrap() = r;
+							}
+						}
+					}
 					self.w.mine_empty(1);
 					self.w.sync_all();
 					let held = self.held_events.clone();
